@@ -542,6 +542,26 @@ func (ev *evalCtx) call(e *SExpr) Val {
 		v := ev.eval(e.Args[0])
 		ev.heap = save
 		return v
+	case "aftercall":
+		// aftercall("callee substring", e): e evaluated in the heap right after the latest matching call
+		// on this path; if there was none, in the function's entry heap
+		if len(e.Args) != 2 || e.Args[0].Op != "str" {
+			return ev.fail("aftercall(\"callee\", e)")
+		}
+		snap := ev.fr.entryHeap
+		for name, sn := range ev.fr.callSnaps {
+			if strings.Contains(name, e.Args[0].Str) {
+				snap = sn
+			}
+		}
+		if snap == nil {
+			snap = map[string]string{}
+		}
+		save := ev.heap
+		ev.heap = snap
+		v := ev.eval(e.Args[1])
+		ev.heap = save
+		return v
 	case "loopentry":
 		// loopentry(N, expr): value of expr at entry of loop N
 		if len(e.Args) != 2 || e.Args[0].Op != "int" {
